@@ -89,6 +89,9 @@ pub struct NodeStore {
     /// Watch of the *current* incarnation.
     pub persisted: Option<Arc<sync::watch::Sender<BlockStoreState>>>,
     pub proposed: u64,
+    /// Number of `get_block` / `push_tx` calls which reached the execution layer.
+    pub get_block_calls: u64,
+    pub push_tx_calls: u64,
 }
 
 impl NodeStore {
@@ -108,6 +111,8 @@ impl NodeStore {
             reject_payloads: 0,
             persisted: None,
             proposed: 0,
+            get_block_calls: 0,
+            push_tx_calls: 0,
         }
     }
 
@@ -263,6 +268,7 @@ impl EngineInterface for SimEngine {
         if !self.alive(&s) {
             return Err(ctx::Canceled.into());
         }
+        s.get_block_calls += 1;
         if s.fail_get_block > 0 {
             s.fail_get_block -= 1;
             self.hub.fault("disk_error");
@@ -416,6 +422,7 @@ impl EngineInterface for SimEngine {
     }
 
     async fn push_tx(&self, _ctx: &ctx::Ctx, _tx: Transaction) -> ctx::Result<bool> {
+        self.store.lock().unwrap().push_tx_calls += 1;
         Ok(true)
     }
 }
